@@ -3,5 +3,6 @@ pub mod conv;
 pub mod dn;
 pub mod filter;
 pub mod gens;
+pub mod model;
 pub mod props;
 pub mod runner;
